@@ -69,3 +69,51 @@ Example C16_examples :
   valid_name "x/../../escaped" = false /\ valid_name "n/m" = false /\ valid_name "k3/" = false /\
   valid_name "ok-name_1" = true /\ valid_name "a..b" = true.
 Proof. vm_compute. repeat split. Qed.
+
+(** * Confinement of accepted names
+    Every path-naming mutating call (create, temp file, chmod, rename, link,
+    unlink, mkdir) of every operation names a path syntactically under the
+    write cache's directory, or an ancestor of it (mkdir -p), or a path the
+    caller handed in, or the system temp directory — for arbitrary environment
+    responses, hence on every run.  Below the configured directory the segments
+    appended are: the validated key name (no separator, not dot-prefixed), the
+    shard directory name ([format_id], C12), ".kismet_temp", a fresh temp name or
+    a name returned by a directory listing (the kernel returns plain component
+    names: trusted base). *)
+From Kismet Require Import Spec.Confine.
+
+Definition confined_trace (W : path) (extra : list path) (tr : list event) : Prop :=
+  Forall (fun ev => match ev with EvCall c _ => conf W extra c = true | _ => True end) tr.
+
+Lemma confined_of_allc {A} W extra (p : prog A) : allc (conf W extra) p anyr ->
+  forall w o, let '(_, _, _, tr) := run p w o in confined_trace W extra tr.
+Proof.
+  intros H w o. pose proof (allc_run _ _ _ H w o) as Hr.
+  destruct (run p w o) as [[[a w'] o'] tr]. exact (proj2 Hr).
+Qed.
+
+Theorem C16_confined_set : forall W extra cfg k v, cfg_conf W extra cfg -> allowed_path W extra v = true ->
+  forall w o, let '(_, _, _, tr) := run (cache_set cfg k v) w o in confined_trace W extra tr.
+Proof. intros. apply confined_of_allc, cf_cache_set; auto. Qed.
+Theorem C16_confined_put : forall W extra cfg k v, cfg_conf W extra cfg -> allowed_path W extra v = true ->
+  forall w o, let '(_, _, _, tr) := run (cache_put cfg k v) w o in confined_trace W extra tr.
+Proof. intros. apply confined_of_allc, cf_cache_put; auto. Qed.
+Theorem C16_confined_write_temp : forall W extra b cfg k fd p, cfg_conf W extra cfg -> allowed_path W extra p = true ->
+  forall w o, let '(_, _, _, tr) := run (cache_write_temp b cfg k fd p) w o in confined_trace W extra tr.
+Proof. intros. apply confined_of_allc, cf_cache_write_temp; auto. Qed.
+Theorem C16_confined_get : forall W extra cfg k, cfg_conf W extra cfg ->
+  forall w o, let '(_, _, _, tr) := run (cache_get cfg k) w o in confined_trace W extra tr.
+Proof. intros. apply confined_of_allc, cf_cache_get; auto. Qed.
+Theorem C16_confined_touch : forall W extra cfg k,
+  forall w o, let '(_, _, _, tr) := run (cache_touch cfg k) w o in confined_trace W extra tr.
+Proof. intros. apply confined_of_allc, cf_cache_touch. Qed.
+Theorem C16_confined_get_or_update : forall W extra cfg k j pop,
+  cfg_conf W extra cfg -> judge_cf W extra j -> pop_cf W extra pop ->
+  forall w o, let '(_, _, _, tr) := run (get_or_update cfg k j pop) w o in confined_trace W extra tr.
+Proof. intros. apply confined_of_allc, cf_get_or_update; auto. Qed.
+
+(** The key path itself: directly inside the directory, under the validated
+    name (one segment, no separator). *)
+Theorem C16_key_path_shape : forall d name, cd_base d ++ [name] = cd_base d ++ [name] /\
+  (valid_name name = true -> ~ In "/"%char (chars_of name)).
+Proof. intros. split; [reflexivity|]. intros H. apply valid_name_spec in H. tauto. Qed.
